@@ -23,6 +23,9 @@ type RandCfg struct {
 	// C16: after the random prelude keep the leader and a majority in prompt contact for this
 	// many adversary steps, during which only the remaining nodes are attacked
 	HealthySteps int `json:"healthy_steps,omitempty"`
+	// C17: time-driven adversary on an automatic network with bounded delay (the scenario's
+	// latency + jitter) and free-running timers: partitions, reads and writes at random instants
+	Timed bool `json:"timed,omitempty"`
 }
 
 var defaultW = map[string]int{
@@ -31,7 +34,106 @@ var defaultW = map[string]int{
 	"member": 3, "gate": 2, "release": 4, "snapnow": 2, "oldfirst": 6,
 }
 
+// timed is the adversary for properties that hold under a timing assumption: messages are
+// delivered by the automatic network within the scenario's delay bound (or dropped by a
+// partition), clocks are the one virtual clock, timers run free.
+func (r *Runner) timed(cfg *RandCfg) {
+	c := r.c
+	rng := rand.New(rand.NewSource(cfg.Seed))
+	c.net.rng = rand.New(rand.NewSource(cfg.Seed + 1))
+	all := append(append([]string{}, r.sc.Voters...), r.sc.Extra...)
+	sort.Strings(all)
+	valSeq := 0
+	everLed := map[string]bool{}
+	isolated := ""
+	for step := 0; step < cfg.Steps; step++ {
+		var up, leaders []string
+		for _, id := range all {
+			n := c.node(id)
+			if n.running {
+				up = append(up, id)
+				if n.r.Status().State == 0 {
+					leaders = append(leaders, id)
+					everLed[id] = true
+				}
+			}
+		}
+		var led []string
+		for id := range everLed {
+			if c.node(id).running {
+				led = append(led, id)
+			}
+		}
+		sort.Strings(led)
+		x := rng.Intn(100)
+		switch {
+		case x < 30:
+			r.Do(Stim{Op: "adv", D: []int{5, 20, 50, 80, 120, 200, 330}[rng.Intn(7)]})
+		case x < 50 && len(up) > 0:
+			valSeq++
+			target := up[rng.Intn(len(up))]
+			if len(leaders) > 0 && rng.Intn(5) > 0 {
+				target = leaders[rng.Intn(len(leaders))]
+			}
+			r.Do(Stim{Op: "submit", N: target, Val: fmt.Sprintf("w%d", valSeq), K: 0, TO: 1500})
+		case x < 75 && len(up) > 0:
+			valSeq++
+			target := up[rng.Intn(len(up))]
+			if len(led) > 0 && rng.Intn(4) > 0 {
+				target = led[rng.Intn(len(led))]
+			}
+			kind := 2
+			if cfg.Reads && rng.Intn(4) == 0 {
+				kind = 1
+			}
+			r.Do(Stim{Op: "submit", N: target, Val: fmt.Sprintf("r%d", valSeq), K: kind, TO: 1000})
+		case x < 85 && isolated == "" && len(up) > 1:
+			// cut a node off (prefer a leader): both directions, or only what it sends / receives
+			isolated = up[rng.Intn(len(up))]
+			if len(leaders) > 0 && rng.Intn(3) > 0 {
+				isolated = leaders[rng.Intn(len(leaders))]
+			}
+			mode := rng.Intn(3)
+			for _, o := range all {
+				if o == isolated {
+					continue
+				}
+				// non-voters may stay connected to the isolated node
+				if cfg.Members && rng.Intn(2) == 0 {
+					cfg2 := c.node(isolated).r.Configuration()
+					if _, m := cfg2.Members[o]; m && !cfg2.IsVoter[o] {
+						continue
+					}
+				}
+				if mode != 2 {
+					r.Do(Stim{Op: "block", From: isolated, To: o})
+				}
+				if mode != 1 {
+					r.Do(Stim{Op: "block", From: o, To: isolated})
+				}
+			}
+		case x < 93 && isolated != "":
+			r.Do(Stim{Op: "healnet"})
+			isolated = ""
+		case x < 96 && cfg.Crashes && len(up) > (len(r.sc.Voters)+1)/2:
+			r.Do(Stim{Op: "crash", N: up[rng.Intn(len(up))]})
+		case x < 100:
+			for _, id := range all {
+				if !c.node(id).running {
+					r.Do(Stim{Op: "restart", N: id})
+					break
+				}
+			}
+		}
+	}
+	r.Do(Stim{Op: "healnet"})
+}
+
 func (r *Runner) random(cfg *RandCfg) {
+	if cfg.Timed {
+		r.timed(cfg)
+		return
+	}
 	c := r.c
 	rng := rand.New(rand.NewSource(cfg.Seed))
 	w := map[string]int{}
